@@ -482,7 +482,7 @@ def report_refuted(pid, x, bounded, eng):
                 detail = json.loads(r.stdout.strip().split("\n")[-1])
             except Exception:
                 detail = {"stdout": r.stdout[-500:], "stderr": r.stderr[-500:]}
-            reproduced = r.returncode == 1
+            reproduced = isinstance(detail, dict) and detail.get("status") == "fail"
         except subprocess.TimeoutExpired:
             detail = {"status": "timeout", "note": "the real function did not return within 120 s on this input"}
             reproduced = True
